@@ -7,17 +7,25 @@ use rvverif::adapter;
 use rvverif::model::TextIndex;
 use rvverif::reflex;
 
+/// VERIF_FUZZ_ORACLES=C06,C07,C09 selects the in-target oracles (default: all three).
+fn on(id: &str) -> bool {
+    static SEL: std::sync::OnceLock<String> = std::sync::OnceLock::new();
+    let s = SEL.get_or_init(|| std::env::var("VERIF_FUZZ_ORACLES").unwrap_or_else(|_| "C06,C07,C09".into()));
+    s.split(',').any(|x| x == id)
+}
+
 fuzz_target!(|data: &[u8]| {
     let text = String::from_utf8_lossy(data).into_owned();
     let files = adapter::single(&text);
     adapter::hooks_set_sweep_limit(Some(50_000));
     // C06: the library entry point must return
-    let diags = rvverif::fuzz_support::unguarded_run(&files);
-    let _ = diags;
+    if on("C06") {
+        let _ = rvverif::fuzz_support::unguarded_run(&files);
+    }
     // C09 (A): token boundaries
     let ti = TextIndex::new(&text);
     let rtoks = reflex::tokenize(&ti.chars);
-    if !rtoks.iter().any(|t| t.kind == "badliteral") {
+    if on("C09") && !rtoks.iter().any(|t| t.kind == "badliteral") {
         if let Ok(toks) = adapter::lex(&text) {
             for t in toks.iter().filter(|t| !t.is_err) {
                 let ok = rtoks.iter().any(|r| r.start == t.range.start.raw && r.end == t.range.end.raw + 1);
@@ -28,6 +36,9 @@ fuzz_target!(|data: &[u8]| {
         }
     }
     // C07 (A): every line with content is covered
+    if !on("C07") {
+        return;
+    }
     if let Ok(p) = adapter::parse(&files) {
         let mut covered = std::collections::BTreeSet::new();
         for n in &p.nodes {
